@@ -230,9 +230,20 @@ def run(ctx):
     nt = 0
     for t1 in base[: (600 if ctx.quick() else 10000)]:
         vd = Date(*t1)
-        ts = [shift(t1, rng.choice([0, 1, 29, 30, 31, 59, 60, 365, 366, rng.randint(0, 20000)])) for _ in range(rng.randint(1, 6))]
+        # dates on both sides of the valuation date (the helper must give year_frac(value_dt, date), which is NOT
+        # -year_frac(date, value_dt) for 30/360 Bond, 30E+/360 and ACT/365L), biased to 31sts and leap days
+        def near(t):
+            k = rng.random()
+            if k < 0.25:
+                return (31, rng.choice([1, 3, 5, 7, 8, 10, 12]), t[2])
+            if k < 0.35:
+                yy = t[2] - t[2] % 4
+                return (29, 2, yy) if (yy % 100 != 0 or yy % 400 == 0) and yy > 1900 else t
+            return t
+        ts = [near(shift(t1, rng.choice([-1, 1]) * rng.choice([0, 1, 29, 30, 31, 59, 60, 365, 366, rng.randint(0, 20000)])))
+              for _ in range(rng.randint(1, 6))]
         ds = [Date(*t) for t in ts]
-        for dcc in [None] + [d for d in dccs if d not in (DayCountTypes.ACT_ACT_ICMA, DayCountTypes.ACT_365L)]:
+        for dcc in [None] + [d for d in dccs if d != DayCountTypes.ACT_ACT_ICMA]:
             def one(d):
                 if dcc is None:
                     return (d - vd) / g_days_in_year
